@@ -7,8 +7,8 @@ The rest of the image loader around `Model/Overlay.lean` (C04, C10 layer byte li
   empty link target) and their effect on the layer's extraction directory (`os.MkdirAll`,
   `os.OpenFile(O_CREATE|O_RDWR)` without truncation, `io.LimitReader`);
 * `initializeChainLayers`' alignment of history entries and layers;
-* `removeUnnecessaryFileNodes` on the final chain layer (whiteout nodes are kept — fix 4d55a770) with
-  `pathtree.Remove`'s pruning of emptied ancestors;
+* `removeUnnecessaryFileNodes` on the final chain layer (whiteout nodes are kept — fix 4d55a770; directories emptied by
+  `pathtree.Remove` are put back);
 * what `fs.WalkDir` and direct lookups observe.
 -/
 import Scalibr.Model.GoPath
@@ -143,7 +143,12 @@ structure LoadSt where
 
 /-- loop body of `fillChainLayersWithFilesFromTar` for chain layer `i` -/
 def processEntry (limit i : Nat) (st : LoadSt) (pe : PEntry) : Option LoadSt :=
-  if ((st.chains.getD i emptyTree) pe.e.p).isSome then some st else
+  if ((st.chains.getD i emptyTree) pe.e.p).isSome then
+    -- already in this chain layer; a directory's own entry still replaces the node made up for it (handleDir runs)
+    (if pe.act = .accept && upgrades (st.chains.getD i emptyTree) pe.e
+     then (diskStep limit st.disk pe).map fun d => { chains := upgradeAll st.chains i pe.e, disk := d }
+     else some st)
+  else
   match pe.act with
   | .fatal => none
   | .badlink => some st
@@ -192,35 +197,24 @@ def neededSet (U : List Path) (t : Tree) (req : Path → Bool) (depth : Nat) : L
     | some n => if n.kind = .link && !n.wh && req s then chase t depth n else []
     | none => []
 
-def kidsOf (U : List Path) (t : Tree) (q : Path) : List Path :=
-  U.filter fun c => c.length = q.length + 1 && c.take q.length == q && (t c).isSome
-
-/-- does `q`'s trie node disappear: an unneeded file or symlink is `Remove`d; `Remove` then deletes
-every ancestor of length ≥ 2 that is left without children -/
-def gone (U : List Path) (t : Tree) (needed : Path → Bool) : Nat → Path → Bool
-  | 0, _ => false
-  | f+1, q =>
-    match t q with
-    | none => false
-    | some n =>
-      if n.kind = .dir then
-        decide (q.length ≥ 2) && (let ks := kidsOf U t q; !ks.isEmpty && ks.all (gone U t needed f))
-      else if n.wh then false
-      else !needed q
-
+/-- `removeUnnecessaryFileNodes` on the final chain layer: an unneeded file or symlink is `Remove`d from the path tree;
+the directories `pathtree.Remove` drops with it (ancestors left without children) are inserted again, so nothing
+else changes.  Directories and whiteout nodes are never unnecessary. -/
 def pruneFinal (U : List Path) (req : Path → Bool) (depth : Nat) (t : Tree) : Tree :=
   let marked := neededSet U t req depth
-  let needed : Path → Bool := fun q => req q || marked.contains q
-  let fuel := U.foldl (fun m q => max m q.length) 0 + 2
-  ⟨fun q => if gone U t needed fuel q then none else t q⟩
+  ⟨fun q => match t.get q with
+    | some n => if n.kind = .dir || n.wh || req q || marked.contains q then some n else none
+    | none => none⟩
 
-/-- real files deleted by the pruning: (layer, path) of every removed node -/
-def deletedFiles (U : List Path) (req : Path → Bool) (depth : Nat) (t : Tree) : List (Nat × Path) :=
+/-- real files deleted by the pruning: (layer, path) of every node removed from the final view that no earlier chain
+layer (`earlier`) still lists — a node an earlier view lists keeps its backing file -/
+def deletedFiles (U : List Path) (req : Path → Bool) (depth : Nat) (earlier : List Tree) (t : Tree) : List (Nat × Path) :=
   let marked := neededSet U t req depth
   let needed : Path → Bool := fun q => req q || marked.contains q
   U.filterMap fun q =>
     match t q with
-    | some n => if n.kind != .dir && !n.wh && !needed q then some (n.layer, q) else none
+    | some n =>
+      if n.kind != .dir && !n.wh && !needed q && !(earlier.any fun v => v.get q == some n) then some (n.layer, q) else none
     | none => none
 
 /-! ### observation -/
